@@ -234,6 +234,11 @@ func checkC05(p *Program, r *Report) {
 		r.Add("C05.valid", fname, "both a private and a public accepting arm exist", fn.Pos(), false, fmt.Sprintf("private arms %d, public arms %d", nPriv, nPub))
 	}
 	canonicalInput(p, r, "C05.canon", []*ssa.Function{fn})
+	if n := rejectionVocabulary(p, r, "C05.accepts", fn, []string{`len\(call .*base58\.Decode\)`, `call bytes\.Equal`, `call .*big\.Int\)\.Cmp`, `call .*big\.Int\)\.Sign`,
+		`call .*bchec\.ParsePubKey#1`, `call .*base58\.Decode\[45\]`}, "the decoded length, the checksum, the key-type byte and the validity of the key material"); n == 0 {
+		r.Unresolved("C05.accepts", "rejection tests of NewKeyFromString")
+	}
+	r.Floor("C05.accepts", 4)
 	base58ByteLookup(p, r, "C05.canon")
 	r.Floor("C05.len", 1)
 	r.Floor("C05.canon", 1)
